@@ -7,16 +7,20 @@
     statements Atlas plans for the difference brings the live database to a state whose difference
     from the desired schema is empty; a second plan computed right after is empty.
 
-    The full statement is FALSE of the faithful model and of the Go code: eight witnesses inside the
+    The full statement is FALSE of the faithful model and of the Go code: four witnesses inside the
     listed feature set are proved below as [C01_converges_refuted_*] (each reproduced on real SQLite,
-    known_findings.d/C01.json).  What does hold is [C01_converges_except]: for every database of the
+    known_findings.d/C01.json).  Four more (composite key not in column order, raw default in parentheses,
+    CHECK "(a) AND (b)", dropping an inline UNIQUE) were defects REPAIRED in the Go code in the fix round
+    (notes/fixes/ORDER-sqlite.txt); the model follows the fixed code, the former witnesses are proved to
+    converge ([C01_converges_*_fixed]) and what the old code did is kept as [C01_*_old_code_refuted] over the
+    old definitions.  What does hold is [C01_converges_except]: for every database of the
     abstract engine and every desired schema satisfying the decidable predicate [supported] --
     (a) the database has no rows, no inline UNIQUE constraints, distinct names, printable tables, no
         open transaction;
     (b) every desired table is creatable (CREATE TABLE accepted by the engine), has no autoindex-named
         index, and *itself* survives CREATE + inspect without a difference, as do its columns and
-        indexes one by one (a per-object, computable check; five of the eight witnesses fail here, one fails
-        (a) and two fail (c));
+        indexes one by one (a per-object, computable check; the witnesses pk_desc and unnamed_fks fail
+        here, index_moves and new_table_clash fail (c));
     (c) names do not collide: new_<t> is free and unreferenced, an index name of the desired schema is
         not used by another table of the database, AUTOINCREMENT columns of an existing table exist --
     SchemaDiff + PlanChanges produce a plan, the engine executes it without error, and the SchemaDiff of
@@ -34,7 +38,8 @@
     computation per object rather than a grammar of expressions; foreign keys with an empty Symbol (at
     most one per table converges; numeric symbols of an inspected desired state are ordinary names) are
     covered by [C01_converges_supported] only; (2) inline UNIQUE constraints in the current database
-    (refuted in general: C01_converges_refuted_drop_unique); (3) SQL text and SQLite itself: the engine
+    (since the fix of [alterable] the former counterexample converges, C01_converges_drop_unique_fixed, but the
+    invariant of the proof does not carry them yet); (3) SQL text and SQLite itself: the engine
     is a model, tied to real go-sqlite3 by the correspondence stages. *)
 From Coq Require Import List NArith ZArith Bool Arith.
 From Atlas Require Sqlite.ConvergeTable.
